@@ -479,7 +479,7 @@ func init() {
 			var obs []Obligation
 			for _, u := range c.Funcs(func(pp string) bool { return rel(pp) == jsonPkg }) {
 				sig := u.Obj.Type().(*types.Signature)
-				if sig.Recv() == nil || !strings.HasSuffix(sig.Recv().Type().String(), "libjson.encoder") {
+				if sig.Recv() == nil || !strings.HasSuffix(canonTypes(sig.Recv().Type().String()), "libjson.encoder") {
 					continue
 				}
 				info := u.Pkg.TypesInfo
@@ -527,7 +527,7 @@ func init() {
 							}
 							construct := ord.next("writes lisp text")
 							switch {
-							case u.Obj.Name() == "encodeString":
+							case shortName(u.Obj) == "encodeString":
 								obs = append(obs, mkOb(c, "JSON.raw-text-writes", u, construct, ce, Proved, "inside encodeString: the pieces written are the runs it has checked need no escape", false))
 							default:
 								// allowed only under an edge entailing the text equals the true/false constants
@@ -788,11 +788,11 @@ func init() {
 				return []Obligation{anchorMissing(rid, "libjson.newEncoder")}
 			}
 			info := pkg.TypesInfo
-			encObj := pkg.Types.Scope().Lookup("encoder")
-			if encObj == nil {
+			encNamed := c.LookupType(jsonPkg + ".encoder")
+			if encNamed == nil {
 				return []Obligation{anchorMissing(rid, "libjson.encoder")}
 			}
-			encT := encObj.Type()
+			var encT types.Type = encNamed
 			params := map[types.Object]bool{}
 			for _, f := range cd.Type.Params.List {
 				for _, nm := range f.Names {
